@@ -122,7 +122,11 @@ def stepIssue (op : String) (j : Json) : Option Json :=
                              holder := ← fld sj "holder" >>= natOfJson, blinding := ← fld sj "blinding" >>= natOfJson,
                              nonce := ← fld sj "nonce" >>= strOfJson, intact := ← fld sj "intact" >>= boolOfJson }
     let subj ← fld j "subject" >>= assocOfJson subjValOfJson
-    let sp ← fld j "sig_proof_ok" >>= boolOfJson
+    -- "the proof holds a credential signature": read from the `proof` member of the document when the harness sends its
+    -- shape (Model/ProofDoc); the engine's own flag otherwise
+    let sp ← (match j.getObjVal? "proof_doc" with
+      | .ok dj => (pdDocOfJson dj).map (fun d => (ProofDoc.sigProof (ProofDoc.parse d)).isSome)
+      | _ => fld j "sig_proof_ok" >>= boolOfJson)
     let mj ← fld j "meta"
     let m : ReqMeta := { blinding := ← fld mj "blinding" >>= natOfJson, nonce := ← fld mj "nonce" >>= strOfJson }
     let holder ← fld j "holder" >>= natOfJson
